@@ -20,7 +20,7 @@ func init() {
 		Rule: "a dedicated race-detector suite (GORACE halt_on_error=0, reports counted in the log files, de-duplicated by stack pair with line numbers stripped, attributed by the innermost non-runtime/non-stdlib frame of either access): " +
 			"S1 pipelined concurrent handlers writing on one connection (plain/TLS/StartTLS, back-pressure); S2 parallel StartTLS upgrades with traffic before and after; S3 Run/Ready/Stop racing connect storms; " +
 			"S4 connection teardown of every kind with handlers in flight; S5 the test directory served by 8 clients doing bind/search/add/modify/delete while the harness calls SetUsers/SetGroups/SetControls/SetTokenGroups/" +
-			"SetAllowAnonymousBind and the getters; S6 the same without Set*; S7 StartTLS upgrades followed by Stop with no traffic over the upgraded session; S8 a request pipelined ahead of StartTLS whose slow handler answers after the upgrade; S9 fresh servers whose very first requests are unrouted and arrive concurrently (one segment, several connections); S10 handlers that answer one request from several goroutines through their one ResponseWriter. Every third repetition of every scenario runs with Debug-level server loggers. Routes are registered before Run. Each scenario is repeated; a self-test race in harness code proves the detector is live. " +
+			"SetAllowAnonymousBind and the getters; S6 the same without Set*; S7 StartTLS upgrades followed by Stop with no traffic over the upgraded session; S8 a request pipelined ahead of StartTLS whose slow handler answers after the upgrade; S9 fresh servers whose very first requests are unrouted and arrive concurrently (one segment, several connections); S10 handlers that answer one request from several goroutines through their one ResponseWriter; S11 connections older than the server's write timeout that keep sending requests one by one while every response write fails. Every third repetition of every scenario runs with Debug-level server loggers. Routes are registered before Run. Each scenario is repeated; a self-test race in harness code proves the detector is live. " +
 			"distinct_nontrivial = distinct (scenario, repetition, GOMAXPROCS) executions that created concurrent gldap goroutines",
 		Assume: []string{"the race detector generalises each observed execution to every execution with the same synchronisation structure, and says nothing about code the workloads did not run",
 			"getter results are only len()-inspected by the harness: deep reads of shared entries after a getter are the caller's business"},
@@ -31,19 +31,19 @@ func init() {
 				procs = []string{"16", "4", "2"}
 			}
 			for _, p := range procs {
-				for _, s := range []string{"S1-writers", "S2-starttls", "S3-stop-storms", "S4-teardown", "S5-directory-set", "S6-directory", "S7-starttls-then-stop", "S8-inflight-across-starttls", "S9-unrouted-first-requests", "S10-fan-out-handlers"} {
+				for _, s := range []string{"S1-writers", "S2-starttls", "S3-stop-storms", "S4-teardown", "S5-directory-set", "S6-directory", "S7-starttls-then-stop", "S8-inflight-across-starttls", "S9-unrouted-first-requests", "S10-fan-out-handlers", "S11-requests-after-failed-writes"} {
 					ps = append(ps, Phase{Name: s + "-p" + p, Race: true, Run: c15Scenario, Env: map[string]string{"GOMAXPROCS": p}, Arg: s})
 				}
 			}
 			if tier == "thorough" {
 				// the same scenarios under a second Go runtime/scheduler (built by ./check with go1.26.8 when present)
-				for _, s := range []string{"S1-writers", "S2-starttls", "S3-stop-storms", "S4-teardown", "S5-directory-set", "S6-directory", "S7-starttls-then-stop", "S8-inflight-across-starttls", "S9-unrouted-first-requests", "S10-fan-out-handlers"} {
+				for _, s := range []string{"S1-writers", "S2-starttls", "S3-stop-storms", "S4-teardown", "S5-directory-set", "S6-directory", "S7-starttls-then-stop", "S8-inflight-across-starttls", "S9-unrouted-first-requests", "S10-fan-out-handlers", "S11-requests-after-failed-writes"} {
 					ps = append(ps, Phase{Name: s + "-go126", Race: true, Run: c15Scenario, Bin: "verif-race126", Env: map[string]string{"GOMAXPROCS": "16"}})
 				}
 			}
 			return ps
 		},
-		MinObserved: []string{"scenario_executions", "S5_set_calls", "S5_client_ops", "fan_out_handler_rounds", "fresh_servers_whose_first_requests_were_unrouted", "repetitions_with_debug_level_loggers"},
+		MinObserved: []string{"scenario_executions", "S5_set_calls", "S5_client_ops", "fan_out_handler_rounds", "rounds_of_requests_after_failed_writes", "fresh_servers_whose_first_requests_were_unrouted", "repetitions_with_debug_level_loggers"},
 	})
 }
 
@@ -95,6 +95,10 @@ func c15Scenario(c *Ctx) {
 			c12Tails = nil
 		case hasPfx(arg, "S4-"):
 			c08RunWith(c, 10, 1)
+		case hasPfx(arg, "S11-"):
+			for round := 0; round < 3; round++ {
+				c15AfterFailedWrites(c, round)
+			}
 		case hasPfx(arg, "S10-"):
 			for round := 0; round < 4; round++ {
 				c15FanOut(c, round)
@@ -120,6 +124,45 @@ func c15Scenario(c *Ctx) {
 		c.Distinct("executions", fmt.Sprintf("%s/%d", arg, rep))
 	}
 	c.Sample(map[string]any{"scenario": arg, "repetitions": reps})
+}
+
+// c15AfterFailedWrites: a server with a write timeout and connections that are older than it: every response write
+// fails (a fault the handlers see as an error), and the client goes on sending requests one after the other, with
+// pauses and without reading - so that whatever a failed write leaves behind for the read loop is looked at by the
+// read loop with no socket read of its own ordering the two.
+func c15AfterFailedWrites(c *Ctx, round int) {
+	srv, err := startSrv(SrvCfg{WriteTimeout: 150 * time.Millisecond}, func(m *gldap.Mux) {
+		h := func(w *gldap.ResponseWriter, r *gldap.Request) {
+			w.Write(r.NewBindResponse(gldap.WithResponseCode(0)))
+		}
+		m.Bind(h)
+	})
+	if err != nil {
+		c.Inconclusive("server start: " + err.Error())
+		return
+	}
+	var wg sync.WaitGroup
+	for k := 0; k < 2+round; k++ {
+		wg.Add(1)
+		go func() {
+			defer wg.Done()
+			cn, err := net.Dial("tcp", srv.Addr)
+			if err != nil {
+				return
+			}
+			defer cn.Close()
+			time.Sleep(250 * time.Millisecond) // the connection is now older than the write timeout
+			for i := 0; i < 12; i++ {
+				if _, err := cn.Write(sber.Message(int64(i+1), sber.BindRequest(3, []byte("cn=x"), []byte("p")), nil).Encode()); err != nil {
+					return
+				}
+				time.Sleep(10 * time.Millisecond)
+			}
+		}()
+	}
+	wg.Wait()
+	srv.StopWithin(patience)
+	c.Count("rounds_of_requests_after_failed_writes", 1)
 }
 
 // c15FanOut: one handler answers its request from several goroutines through the one ResponseWriter it was given
@@ -343,7 +386,11 @@ func c15Directory(c *Ctx, r *Rand, withSet bool) {
 			for i := 0; i < 120 && !stop.Load(); i++ {
 				dn := c20UserDN(rr.Intn(8))
 				var err error
-				switch rr.Intn(7) {
+				switch rr.Intn(9) {
+				case 7: // anonymous binds: decided by the directory's flag alone
+					_, _, err = kc.roundTrip(sber.BindRequest(3, nil, nil), sber.AppBindResponse)
+				case 8:
+					_, _, err = kc.roundTrip(sber.BindRequest(3, []byte(dn), nil), sber.AppBindResponse)
 				case 0:
 					_, _, err = kc.roundTrip(sber.BindRequest(3, []byte(dn), []byte("pw")), sber.AppBindResponse)
 				case 1:
